@@ -744,6 +744,13 @@ class Exec:
     def ev_Subscript(self, e, st):
         def f(s, base):
             if isinstance(e.slice, ast.Slice):
+                b = unbox_handle(self, base)
+                if isinstance(b, Obj) and hasattr(b, 'slice_obj') and e.slice.step is None:
+                    def bound(expr, s0):
+                        if expr is None:
+                            return [('ok', s0, None)]
+                        return self.bind(self.ev(expr, s0), lambda s1, v: [('ok', s1, as_int(self, s1, v))])
+                    return self.bind(bound(e.slice.lower, s), lambda s1, lo: self.bind(bound(e.slice.upper, s1), lambda s2, hi: b.slice_obj(self, s2, lo, hi, e)))
                 return self.slice(s, base, e.slice, e)
             return self.bind(self.ev(e.slice, s), lambda s2, idx: self.index(s2, base, idx, e))
         return self.bind(self.ev(e.value, st), f)
@@ -1849,7 +1856,69 @@ class ZipVal(Obj):
         return outs
 
 
+def _b_enumerate(ex, e, st):
+    def f(s, v):
+        v = unbox_handle(ex, v)
+        if isinstance(v, Obj) and hasattr(v, 'enumerate'):
+            return v.enumerate(ex, s, e)
+        raise Unsupported('enumerate over ' + repr(v))
+    return ex.bind(ex.ev(e.args[0], st), f)
+
+
+def _b_reversed(ex, e, st):
+    def f(s, v):
+        v = unbox_handle(ex, v)
+        if isinstance(v, Obj) and hasattr(v, 'reversed_obj'):
+            return v.reversed_obj(ex, s, e)
+        raise Unsupported('reversed over ' + repr(v))
+    return ex.bind(ex.ev(e.args[0], st), f)
+
+
+def _b_range(ex, e, st):
+    if len(e.args) != 1:
+        raise Unsupported('range arity')
+    return ex.bind(ex.ev(e.args[0], st), lambda s, n: [('ok', s, RangeIter(as_int(ex, s, n)))])
+
+
+class RangeIter(Obj):
+    """range(n) iterated by a for loop: index ghost, cut by the loop invariant"""
+
+    def __init__(self, n):
+        self.n = n
+        self.oid = -7
+        self.key = f'#r{V.fresh_id()}'
+
+    def havoc(self, ex, st):
+        pass
+
+    def iter_start(self, ex, st, node):
+        st = st.fork()
+        st.ghost[self.key] = z3.IntVal(0)
+        return [('ok', st, self)]
+
+    def havoc_index(self, st):
+        i = fresh('ridx', z3.IntSort())
+        st.ghost[self.key] = i
+        st.assume(i >= 0, z3.Or(i <= self.n, i == 0))
+
+    def idx(self, st):
+        return st.ghost[self.key]
+
+    def pull(self, ex, st, node):
+        i = st.ghost[self.key]
+        s1 = st.fork().assume(i >= self.n)
+        s2 = st.fork().assume(i < self.n)
+        s2.ghost[self.key] = i + 1
+        outs = []
+        if ex.feasible(s1):
+            outs.append(('stop', s1, None))
+        if ex.feasible(s2):
+            outs.append(('item', s2, i))
+        return outs
+
+
 BUILTINS = {
     'len': _b_len, 'isinstance': _b_isinstance, 'max': _b_max, 'min': lambda ex, e, st: _b_max(ex, e, st, False),
     'next': _b_next, 'list': _b_list, 'getattr': _b_getattr, 'print': _b_print, 'int': _b_int, 'id': _b_id, 'zip': _b_zip,
+    'enumerate': _b_enumerate, 'range': _b_range, 'reversed': _b_reversed,
 }
